@@ -1399,6 +1399,11 @@ class Ev:
             return a
         if isinstance(b, Frag):
             return b
+        if (self.outside_value(a) and (is_numeric(b) or self.outside_value(b))) or (self.outside_value(b) and is_numeric(a)):
+            # arithmetic on a value of an uninterpreted numeric library (an array expression): a term over it
+            sym = {ast.Add: "+", ast.Sub: "-", ast.Mult: "*", ast.Div: "/", ast.FloorDiv: "//", ast.Mod: "%", ast.Pow: "**", ast.MatMult: "@"}.get(type(op))
+            if sym is not None:
+                return Term(sym, [a, b])
         if is_numeric(a) and is_numeric(b) and (isinstance(a, (Sym, Term)) or isinstance(b, (Sym, Term))):
             sym = {ast.Add: "+", ast.Sub: "-", ast.Mult: "*", ast.Div: "/", ast.FloorDiv: "//", ast.Mod: "%", ast.Pow: "**"}.get(type(op))
             if sym is None:
@@ -1775,7 +1780,7 @@ class Ev:
             if len(v.pieces) == 1 and v.pieces[0][0] == "sym" and v.pieces[0][1].kind == "int":
                 return Term("float", [v.pieces[0][1]])  # the number, but no longer an integer
             return Frag("float(%s)" % v.text())
-        if name in ("round", "abs", "min", "max", "float") and args and any(isinstance(a, (Sym, Term)) for a in args):
+        if name in ("round", "abs", "min", "max", "float") and args and any(isinstance(a, (Sym, Term)) or self.outside_value(a) for a in args) and all(is_numeric(a) or self.outside_value(a) for a in args):
             if name == "float" and len(args) == 1:
                 return args[0]
             return Term(name, args)
